@@ -251,3 +251,76 @@ pub async fn test_serial_merged_object() {
         .await;
     assert_eq!(&*list.lock().await, &[1, 2, 3, 4]);
 }
+
+#[tokio::test]
+pub async fn test_mutation_refused_for_query_string_request() {
+    use std::sync::atomic::{AtomicUsize, Ordering};
+
+    struct Query;
+
+    #[Object]
+    impl Query {
+        async fn value(&self) -> i32 {
+            10
+        }
+    }
+
+    struct Mutation;
+
+    #[Object]
+    impl Mutation {
+        async fn inc(&self, ctx: &Context<'_>) -> bool {
+            ctx.data_unchecked::<Arc<AtomicUsize>>()
+                .fetch_add(1, Ordering::SeqCst);
+            true
+        }
+    }
+
+    let counter = Arc::new(AtomicUsize::new(0));
+    let schema = Schema::build(Query, Mutation, EmptySubscription)
+        .data(counter.clone())
+        .finish();
+
+    // a request decoded from the query string of a GET request never runs a mutation
+    let request = http::parse_query_string("query=mutation%20%7B%20inc%20%7D").unwrap();
+    let resp = schema.execute(request).await;
+    assert!(resp.is_err());
+    assert_eq!(counter.load(Ordering::SeqCst), 0);
+
+    // ... also when the mutation is one operation of several, selected by name
+    let request = http::parse_query_string(
+        "query=query%20A%20%7B%20value%20%7D%20mutation%20B%20%7B%20inc%20%7D&operationName=B&operation_name=B",
+    )
+    .unwrap();
+    let resp = schema.execute(request).await;
+    assert!(resp.is_err());
+    assert_eq!(counter.load(Ordering::SeqCst), 0);
+
+    // ... and in a batch and as a stream
+    let request = http::parse_query_string("query=mutation%20%7B%20inc%20%7D").unwrap();
+    let resp = schema.execute_batch(BatchRequest::Single(request)).await;
+    assert!(!resp.is_ok());
+    let request = http::parse_query_string("query=mutation%20%7B%20inc%20%7D").unwrap();
+    let resps: Vec<Response> = futures_util::StreamExt::collect(schema.execute_stream(request)).await;
+    assert!(resps.iter().all(|resp| resp.is_err()));
+    assert_eq!(counter.load(Ordering::SeqCst), 0);
+
+    // queries are not affected
+    let request = http::parse_query_string("query=%7B%20value%20%7D").unwrap();
+    assert_eq!(
+        schema.execute(request).await.into_result().unwrap().data,
+        value!({ "value": 10 })
+    );
+
+    // the same document sent any other way does run
+    let resp = schema.execute("mutation { inc }").await;
+    assert!(resp.is_ok());
+    assert_eq!(counter.load(Ordering::SeqCst), 1);
+
+    // the flag can be set on any request
+    let resp = schema
+        .execute(Request::new("mutation { inc }").disallow_mutation())
+        .await;
+    assert!(resp.is_err());
+    assert_eq!(counter.load(Ordering::SeqCst), 1);
+}
